@@ -285,6 +285,17 @@ def cases(draw):
     sim = draw(st.sampled_from(SIMS))
     safe = sim.startswith("safe") or sim == "model_api_safe"
     sp = draw(networks(safe, delayed_reactants=sim in ("safe_ssa", "safe_volume", "model_api_safe")))
+    if sim == "safe_delay":
+        # with the delay simulator a delayed reactant is consumed when the delay has passed, whatever is left by then - its
+        # count may go below zero.  That is only a valid input for a species no rate law reads: one is added
+        used = set()
+        for rx in sp["reactions"]:
+            used |= set(rx["r"]) | {rx["pd"].get("s1"), rx["pd"].get("d")} | (ref.tree_symbols(rx["tree"]) if rx.get("tree") else set())
+        delayed = [rx for rx in sp["reactions"] if rx.get("delay")]
+        if delayed and draw(st.booleans()):
+            sp["species"].append("Lf")
+            sp["x0"]["Lf"] = float(draw(st.integers(0, 3)))
+            draw(st.sampled_from(delayed))["delay"]["r"] = ["Lf"]
     dt = draw(st.sampled_from([0.03125, 0.0625, 0.125, 0.25, 0.5]))
     n = draw(st.integers(3, 30))
     k0 = draw(st.sampled_from([0, 0, 0, 3, 8]))      # the reported grid may start after the simulation start (time 0)
